@@ -294,6 +294,8 @@ def run(P, R, tier):
         if P.func(k_, required=False) is not None:
             n_opt += _opt.check_function(P, R, k_)
     R.floor("OPT optional-factor selections", n_opt, 6)
+    from ..engines import traps as _traps
+    _traps.check(P, R, ['factor_analysis'], scope='factor_analysis:(FactorAnalysisBase\\.(_compute_\\w+|_latent_\\w+|compute_latent_x|update_[xyzUVD]|compute_accumulators_[UVD]|_get_statistics_by_class_id|_sum_[nf]_statistics|initialize\\w*)|JFAMachine\\.(e_step_\\w|m_step_\\w|finalize_\\w|fit)|reduce_iadd)')
 
 
 EXPLANATION += ' Also: (ACC.sum) accumulators are summed over classes / sessions; (POL.acc-placement) every factor of A1 / A2 multiplies; (OPT); (IDX.class-select); (COVER.reduce_iadd / COVER.pairs) per-class accumulators are folded whole; (DTYPE.raw).'
